@@ -460,11 +460,13 @@ def check_render(env, case, exc, verb, utf8, ignore, ansi, simple, keep_caches=F
     if not keep_caches:
         _trace.clear_trace_caches()
     io = make_io(verb, utf8, ansi)
-    pattern = {"none": None, "lib": "^" + re.escape(env.lib + os.sep), "nothing": "^/nonexistent-dir/", "pseudo": r"^<string>$"}[ignore]
+    pattern = {"none": None, "lib": "^" + re.escape(env.lib + os.sep), "nothing": "^/nonexistent-dir/", "pseudo": r"^<string>$", "empty": ""}[ignore]
     if trace is None:
         trace = ExceptionTrace(exc)
-        if pattern:
+        if pattern is not None:
             trace.ignore_files_in(pattern)
+    if pattern == "":
+        pattern = None  # an empty "ignored path" setting names no path: nothing is ignored
     frames = real_frames(exc)
 
     def bad(sig, what, expected=None, observed=None):
@@ -648,7 +650,7 @@ def cases(env, tier):
                 yield ["src", L, T, shape, verb, utf8, ignore, ansi]
     for which in ("exec", "gone"):
         # exec'd code has the pseudo file name "<string>": a pattern naming it must hide its frames like any other
-        for verb, utf8, ignore, ansi in itertools.product(VERB, (True, False), tuple(IGNORE) + (("pseudo",) if which == "exec" else ()), (False, True)):
+        for verb, utf8, ignore, ansi in itertools.product(VERB, (True, False), tuple(IGNORE) + (("pseudo",) if which == "exec" else ("empty",)), (False, True)):
             yield ["nosrc", which, verb, utf8, ignore, ansi]
     for verb1, verb2, utf8, ansi, recreate in itertools.product(VERB, VERB, (True, False), (False, True), (False, True, "short", "short-fresh")):
         yield ["vanish", verb1, verb2, utf8, ansi, recreate]
